@@ -247,7 +247,40 @@ func (m *Machine) selectStrs(idx *Term, vals []Val, l int, tainted bool) Val {
 		bytes[b] = r
 	}
 	s := strFromBytes(bytes, tainted)
+	if !s.Conc() {
+		pi := &pickInfo{idx: idx}
+		for i, v := range vals {
+			if o := v.(*StrV); o.Len() == l && o.Conc() {
+				pi.at = append(pi.at, i)
+				pi.opts = append(pi.opts, o)
+			} else if o.Len() == l {
+				pi = nil
+				break
+			}
+		}
+		s.P = pi
+	}
 	return s
+}
+
+// mapPick applies a native string function to every option of a pick.
+func (m *Machine) mapPick(s *StrV, f func(string) string) Val {
+	pi := s.P
+	n := 0
+	for _, a := range pi.at {
+		if a+1 > n {
+			n = a + 1
+		}
+	}
+	vals := make([]Val, n)
+	filler := &StrV{S: f(pi.opts[0].S)}
+	for i := range vals {
+		vals[i] = filler // indices of other length classes are excluded by the path condition
+	}
+	for i, a := range pi.at {
+		vals[a] = &StrV{S: f(pi.opts[i].S)}
+	}
+	return m.selectVals(pi.idx, vals)
 }
 
 // selectTerm builds vals[idx] as an ite chain, merging runs of equal constants.
